@@ -937,6 +937,40 @@ func runC05(c *Ctx) {
 		c.ob("C05-R7", fnKey(m)+"#request-path-matched-as-sent", badPos, n > 0 && bad == "", "the request path passes through "+bad+" before it is matched: net/http has already decoded it, so white space, case or dots at its ends are data of a segment (GET /files/a%20 binds \"a\", GET /files/%20 is dispatched to /files)")
 	}
 
+	// the splitter itself is trusted by the clause above only for splitting: inside it, the path goes through no
+	// lexical cleaning, case folding, replacement or decoding either (path.Clean resolves the dot segments that
+	// net/http leaves in a percent-decoded path: GET /files/%2E%2E/admin would be dispatched to /admin)
+	if sp := c.fn(serverPkg, "splitPath"); sp != nil && len(sp.Params) >= 1 {
+		isParam := func(z ssa.Value) bool { _, ok := z.(*ssa.Parameter); return ok }
+		badIn := ""
+		var at token.Pos = sp.Pos()
+		eachCall(sp, func(call ssa.CallInstruction) {
+			f := calleeOf(call)
+			if f == nil || f.Pkg() == nil {
+				return
+			}
+			deny := false
+			switch f.Pkg().Path() {
+			case "path", "path/filepath", "net/url":
+				deny = true
+			case "strings":
+				switch f.Name() {
+				case "TrimSpace", "ToLower", "ToUpper", "Replace", "ReplaceAll", "Title", "Map":
+					deny = true
+				}
+			}
+			if !deny {
+				return
+			}
+			for _, a := range call.Common().Args {
+				if derivesFrom(a, isParam) {
+					badIn, at = f.Pkg().Path()+"."+f.Name(), call.Pos()
+				}
+			}
+		})
+		c.ob("C05-R7", fnKey(sp)+"#splitter-only-splits", at, badIn == "", "the router's path splitter passes the path through "+badIn+": the request path is already percent-decoded, so dot segments, case and blanks are data of a segment - resolving or folding them dispatches the request to another route than the one its segments match (GET /files/%2E%2E/admin runs /admin)")
+	}
+
 	// ---- R6 binding fidelity
 	c.rule("C05-R6", "def-use: both engines bind a path parameter to the request segment itself: in server.matchRoute and interpreter.extractPathParams the value stored under a parameter name is an element of the split request path reached through no call other than the splitting/trimming of the whole path (no second percent-decoding, no case folding), and matchRoute decides static and parameter patterns alike over that one segmentation (every string comparison has an element of the segment slice on the request side, never the unsplit path)")
 	segElem := func(v ssa.Value) bool {
